@@ -83,12 +83,29 @@ func c13Run(s *c13Scn, variant string) verdict {
 	}
 	pipe := simdev.NewPipe(cli, int64(s.idx))
 	pipe.Seg = simdev.Seg{Mode: "rand", Max: 9}
+	// a list that would mark every answer that says anything: given where it must NOT be in force
+	var everything []string
+
+	for _, o := range outs {
+		if t := strings.TrimSpace(o); t != "" {
+			everything = append(everything, t)
+		}
+	}
+
+	everything = append(everything, "? unknown")
+
 	opts := []util.Option{
 		options.WithCustomTransport(pipe),
 		options.WithReadDelay(20 * time.Microsecond),
 		options.WithTimeoutOps(4 * time.Second),
-		options.WithFailedWhenContains(conc(s.Drv)),
 	}
+
+	if s.idx%2 == 0 {
+		// the driver-level list is given twice (a platform's default, then the user's): the later one replaces the earlier one
+		opts = append(opts, options.WithFailedWhenContains(everything))
+	}
+
+	opts = append(opts, options.WithFailedWhenContains(conc(s.Drv)))
 
 	var opOpts []util.Option
 
@@ -144,6 +161,32 @@ func c13Run(s *c13Scn, variant string) verdict {
 		fail(&v, "C13:"+variant+":open-error", "open: %v", err)
 
 		return v
+	}
+
+	if s.idx%3 == 1 {
+		// an earlier operation on the same driver with a list of its own: that list is in force for that operation only
+		var r0 *response.Response
+
+		var e0 error
+
+		fin0, pan0 := withWatchdog(10*time.Second, func() {
+			if nd != nil {
+				r0, e0 = nd.SendCommand("pre0", opoptions.WithFailedWhenContains(everything))
+			} else {
+				r0, e0 = gd.SendCommand("pre0", opoptions.WithFailedWhenContains(everything))
+			}
+		})
+
+		switch {
+		case !fin0 || pan0 != nil || e0 != nil:
+			fail(&v, "C13:"+variant+":earlier-operation", "the earlier operation: returned=%v panic=%v err=%v", fin0, pan0, e0)
+		case r0.Failed == nil:
+			fail(&v, "C13:"+variant+":earlier-operation:member-failed-flag", "the earlier operation (list %q) returned %q and was not marked", everything, r0.Result)
+		}
+
+		if !v.OK {
+			return v
+		}
 	}
 
 	var m *response.MultiResponse
@@ -275,7 +318,7 @@ func c13Run(s *c13Scn, variant string) verdict {
 	lines := []string{}
 
 	for _, r := range cli.Log {
-		if r.Line != "" && r.Line != "conf" && r.Line != "end" {
+		if r.Line != "" && r.Line != "conf" && r.Line != "end" && r.Line != "pre0" {
 			lines = append(lines, r.Line)
 		}
 	}
